@@ -330,18 +330,34 @@ int g; static int gseed_;
 static long long sunk_;
 void sink(long long v) { sunk_ += v; }
 void ext(void) { g = g * 3 + 1 + gseed_; if (g > 1000 || g < -1000) g = gseed_; }
+/* evaluations are buffered per call and committed only when the call terminates: a call cut off by the loop fuel
+   stands for a non-terminating execution (a side-effect-free loop the implementation may assume to terminate,
+   C11 6.8.5p6), its evaluations are not evidence against a verdict */
+#define NB 8192
+static int bid_[NB]; static long long bval_[NB]; static int bn_, bover_;
 static inline int rec_(int id, int v) {
-  if (cnt_[id][v]++ == 0) memcpy(wit_[id][v], args_, sizeof args_);
-  stamp_[id] = epoch_; last_[id] = v;
-  int f = pair_first_[id];
-  if (f >= 0 && stamp_[f] == epoch_ && last_[f] != v) { if (pairbad_[id]++ == 0) memcpy(pairwit_[id], args_, sizeof args_); }
+  if (bn_ < NB) { bid_[bn_] = id; bval_[bn_] = v; bn_++; } else bover_ = 1;
   return v;
 }
 static inline long long recv_(int id, long long v) {
-  if (cnt_[id][0]++ == 0) { vmin_[id] = vmax_[id] = v; memcpy(wit_[id][0], args_, sizeof args_); }
-  if (v < vmin_[id]) { vmin_[id] = v; memcpy(wit_[id][0], args_, sizeof args_); }
-  if (v > vmax_[id]) { vmax_[id] = v; memcpy(wit_[id][1], args_, sizeof args_); }
+  if (bn_ < NB) { bid_[bn_] = -1 - id; bval_[bn_] = v; bn_++; } else bover_ = 1;
   return v;
+}
+static void commit_(void) {
+  for (int k = 0; k < bn_; k++) {
+    if (bid_[k] >= 0) {
+      int id = bid_[k]; int v = (int)bval_[k];
+      if (cnt_[id][v]++ == 0) memcpy(wit_[id][v], args_, sizeof args_);
+      stamp_[id] = epoch_; last_[id] = v;
+      int f = pair_first_[id];
+      if (f >= 0 && stamp_[f] == epoch_ && last_[f] != v) { if (pairbad_[id]++ == 0) memcpy(pairwit_[id], args_, sizeof args_); }
+    } else {
+      int id = -1 - bid_[k]; long long v = bval_[k];
+      if (cnt_[id][0]++ == 0) { vmin_[id] = vmax_[id] = v; memcpy(wit_[id][0], args_, sizeof args_); memcpy(wit_[id][1], args_, sizeof args_); }
+      if (v < vmin_[id]) { vmin_[id] = v; memcpy(wit_[id][0], args_, sizeof args_); }
+      if (v > vmax_[id]) { vmax_[id] = v; memcpy(wit_[id][1], args_, sizeof args_); }
+    }
+  }
 }
 #define RB(id, e) rec_(id, (e))
 #define RC(id, e) rec_(id, (e) != 0)
@@ -394,7 +410,7 @@ def render_instrumented(funcs, nsites, pairs, extra_runtime=""):
             drv.append("%sfor (unsigned i%d = 0; i%d < %d; i%d++) { args_[%d] = d%d_[i%d];" % (ind, k, k, len(dom), k, k, k, k))
             names.append("(%s)d%d_[i%d]" % (t, k, k))
             ind += "  "
-        drv.append("%sfor (gseed_ = 0; gseed_ < %d; gseed_++) { g = gseed_; epoch_++; fuel_ = 0; diverged_ = 0; sunk_ += %s(%s); ndiverged_ += diverged_; }"
+        drv.append("%sfor (gseed_ = 0; gseed_ < %d; gseed_++) { g = gseed_; epoch_++; fuel_ = 0; diverged_ = 0; bn_ = 0; bover_ = 0; sunk_ += %s(%s); if (!diverged_ && !bover_) commit_(); else ndiverged_++; }"
                    % (ind, 2 if f.uses_global else 1, f.name, ", ".join(names)))
         for k in range(len(f.params)):
             drv.append("  " * (len(f.params) - k) + "}}")
